@@ -28,7 +28,7 @@ DECL_INTENTS = ['base_type', 'derived_type', 'dup_dimension', 'scaled_unit',
                 'plain_unit', 'currency_reg', 'currency_new', 'dup_symbol',
                 'empty_symbol', 'wrong_type_scaled']
 OWN_INTENTS = ['bad_currency', 'bad_type', 'scaled_on_noref', 'reuse',
-               'conv_new',
+               'operate', 'conv_new',
                'conv_update', 'conv_update_bad', 'evict']
 PROBE_DATES = ['2024-02-29', '2024-03-01', '2023-02-28', '1999-12-31']
 
@@ -55,6 +55,7 @@ def gen(seed, run, tier='quick'):
         'bad_currency': rng.choice([0, 1, 2]),
         'bad_type': rng.choice([0, 1, 2]),
         'scaled_on_noref': rng.choice([0, 1, 2]),
+        'operate': rng.choice([0, 2, 4, 6]),
         'reuse': rng.choice([2, 4, 6]),
         'conv_new': rng.choice([0, 1, 2]),
         'conv_update': rng.choice([0, 2, 4]),
@@ -73,6 +74,12 @@ def gen(seed, run, tier='quick'):
     while len(ops) < n_ops:
         k = rng.choices(kinds, weights)[0]
         ops.append([k] + [rng.randrange(1 << 16) for _ in range(12)])
+    if rng.random() < 0.35:
+        # operation-cache scenario (see _scenario_step), somewhere in the
+        # second half of the history
+        rr = [rng.randrange(1 << 16) for _ in range(12)]
+        pos = rng.randrange(len(ops) // 2, len(ops) + 1)
+        ops[pos:pos] = [['scn'] + rr for _ in range(9)]
     return {'cfg': {'variant': variant}, 'ops': ops}
 
 
@@ -142,6 +149,8 @@ class State:
         self.burnt = []         # (symbol, how it was rejected)
         self.rej_dims = []      # items of types rejected for other reasons
         self.rej_terms = []     # rejected term definitions (wrong type)
+        self.term_pairs = []    # (s1, s2, op) that term definitions use
+        self.scn = None         # running operation-cache scenario
         self.n_amount = 0
 
     def amount(self):
@@ -195,6 +204,24 @@ def resolve(st: State, op):
         return {'a': 'derived_type', 'name': f'D{n}', 'items': [],
                 'style': 3, 'ref_sym': f'r{n}', 'auto_ref': False,
                 'quantum': None, 'expect': 'reject', 'bad': 'not_a_term'}
+    if kind == 'scn':
+        return _scenario_step(st, n, r)
+    if kind == 'operate':
+        # an operation as a step of the history (it is not read-only: it
+        # fills the operation memo), its result is compared between worlds
+        pairs = st.term_pairs
+        if pairs and r[0] % 3:
+            s1, s2, opn = pairs[r[1] % len(pairs)]
+        else:
+            if not model.uorder:
+                return None
+            s1 = decl._pick(model.uorder, r[1])
+            s2 = decl._pick(model.uorder, r[2])
+            opn = '*/'[r[3] % 2]
+        if s1 not in model.units or s2 not in model.units:
+            return None
+        return {'a': 'operate', 's1': s1, 's2': s2, 'op': opn,
+                'expect': 'accept'}
     if kind == 'scaled_on_noref':
         # 'k * unit' as definition of a unit of a type WITHOUT reference
         # unit: whatever the library makes of it (the documentation says
@@ -337,10 +364,121 @@ def resolve(st: State, op):
     raise ValueError(f"unknown intent {op}")
 
 
+def _scenario_step(st: State, n, r):
+    """Scenario 'a rejected declaration next to an operation and to the valid
+    declaration that changes how that operation resolves': consecutive 'scn'
+    intents walk through  [operate] - rejected - valid - rejected - operate
+    (the middle part in either order) for one pair of units (a, b) whose
+    product or quotient belongs to a declared derived type D."""
+    model = st.model
+    sc = st.scn
+    if sc is None or sc['i'] >= len(sc['plan']):
+        cands = []
+        for tn in model.order:
+            t = model.types[tn]
+            if t['base'] or t['ref'] is None or t['quantum'] is not None \
+                    or t['catalogue'] or len(t['items']) != 2:
+                continue
+            (ta, ea), (tb, eb) = t['items']
+            if ea != 1 or abs(eb) != 1:
+                continue
+            if model.types[ta]['units'] and model.types[tb]['units'] and \
+                    model.has_ref(ta) and model.has_ref(tb):
+                cands.append((tn, ta, tb, eb))
+        if not cands:
+            # build what the scenario needs: two base types with reference
+            # unit, a scaled unit, a derived type over the two
+            st.scn = None
+            refs = [x for x in model.types_with_ref()
+                    if model.types[x]['base']
+                    and not model.types[x]['catalogue']]
+            if len(refs) < 2:
+                return {'a': 'base_type', 'name': f'T{n}',
+                        'ref_sym': f'r{n}', 'quantum': None,
+                        'expect': 'accept'}
+            ta, tb = refs[r[0] % len(refs)], refs[(r[0] + 1) % len(refs)]
+            if len(model.types[ta]['units']) < 2:
+                return {'a': 'scaled_unit', 'type': ta, 'sym': f'u{n}',
+                        'parent': model.types[ta]['ref'],
+                        'k': decl._pick(decl.NUMS, r[1]), 'via': 'rmul',
+                        'expect': 'accept'}
+            e = 1 if r[2] % 2 else -1
+            dim = decl.dim_add(model.types[ta]['dim'],
+                               model.types[tb]['dim'], e)
+            if decl.dim_key(dim) in model.dims:
+                e = -e
+                dim = decl.dim_add(model.types[ta]['dim'],
+                                   model.types[tb]['dim'], e)
+                if decl.dim_key(dim) in model.dims:
+                    return None
+            return {'a': 'derived_type', 'name': f'D{n}',
+                    'items': [[ta, 1], [tb, e]], 'style': r[3] % 3,
+                    'ref_sym': f'r{n}', 'auto_ref': False, 'quantum': None,
+                    'expect': 'accept', 'dup_dim': False}
+        tn, ta, tb, eb = cands[r[0] % len(cands)]
+        ua = model.types[ta]['units']
+        ub = model.types[tb]['units']
+        a = ua[-1] if r[1] % 2 else ua[r[1] % len(ua)]
+        b = ub[r[2] % len(ub)]
+        mid = [['rej', 'valid'], ['valid', 'rej'],
+               ['rej', 'valid', 'rej']][r[3] % 3]
+        plan = (['op'] if r[4] % 2 else []) + mid + ['op']
+        sc = st.scn = {'D': tn, 'a': a, 'b': b, 'e': eb, 'plan': plan,
+                       'i': 0}
+    what = sc['plan'][sc['i']]
+    sc['i'] += 1
+    a, b, e, tn = sc['a'], sc['b'], sc['e'], sc['D']
+    if a not in model.units or b not in model.units:
+        return None
+    if what == 'op':
+        return {'a': 'operate', 's1': a, 's2': b,
+                'op': '*' if e == 1 else '/', 'expect': 'accept'}
+    items = [[a, 1], [b, e]]
+    if what == 'valid':
+        form = r[5] % 3
+        if form == 0:
+            return {'a': 'derive_unit', 'type': tn, 'units': [a, b],
+                    'sym': f'u{n}', 'expect': 'accept', 'reuse': 'scenario'}
+        if form == 1:
+            return {'a': 'term_unit', 'type': tn, 'sym': f'u{n}',
+                    'items': items, 'k': None, 'nums': [], 'spell': 0,
+                    'expect': 'accept', 'reuse': 'scenario'}
+        # an equivalent unit, declared as multiple of the reference unit
+        k = model.term_factor(items)
+        return {'a': 'scaled_unit', 'type': tn, 'sym': f'u{n}',
+                'parent': model.types[tn]['ref'],
+                'k': {'t': 'frac', 'v': str(k)}, 'via': 'rmul',
+                'expect': 'accept', 'reuse': 'scenario'}
+    # a rejected declaration that touches the same units
+    form = r[6] % 4
+    taken = model.uorder[r[7] % len(model.uorder)]
+    if form == 0:
+        others = [x for x in model.types_with_ref() if x != tn]
+        if others:
+            return {'a': 'term_unit', 'type': others[r[8] % len(others)],
+                    'sym': f'u{n}', 'items': items, 'k': None, 'nums': [],
+                    'spell': 0, 'expect': 'reject',
+                    'bad': 'wrong_dimension'}
+    if form == 1:
+        return {'a': 'derive_unit', 'type': tn, 'units': [a, b],
+                'sym': taken, 'expect': 'reject', 'bad': 'dup_symbol'}
+    if form == 2:
+        return {'a': 'term_unit', 'type': tn, 'sym': taken, 'items': items,
+                'k': None, 'nums': [], 'spell': 0, 'expect': 'reject',
+                'bad': 'dup_symbol'}
+    return {'a': 'derive_unit', 'type': tn, 'units': [a, b, b],
+            'sym': f'u{n}', 'expect': 'reject', 'bad': 'count'}
+
+
 def note_outcome(st: State, act, accepted, info):
     """Book-keeping after the library answered (world A1)."""
     model = st.model
     a = act['a']
+    for p in _pairs_of(act):
+        if p not in st.term_pairs:
+            st.term_pairs.append(p)
+    if a == 'operate':
+        return
     if accepted:
         if a == 'conv_new':
             st.convs[act['name']] = {'base': act['base'], 'kind': None}
@@ -362,6 +500,26 @@ def note_outcome(st: State, act, accepted, info):
         st.rej_dims.append(act['items'])
     if a == 'term_unit' and act.get('bad') == 'wrong_dimension':
         st.rej_terms.append(act)
+
+
+def _pairs_of(act):
+    """The product / quotient of two units that a term definition or a
+    derive_unit_from call is made of."""
+    out = []
+    its = act.get('items') if act['a'] == 'term_unit' else None
+    if act['a'] == 'derive_unit' and len(act.get('units', [])) == 2:
+        out.append([act['units'][0], act['units'][1], '*'])
+        out.append([act['units'][0], act['units'][1], '/'])
+    if its and len(its) == 2 and abs(its[0][1]) == 1 and \
+            abs(its[1][1]) == 1:
+        (s1, e1), (s2, e2) = its
+        if e1 == -1:
+            (s1, e1), (s2, e2) = (s2, e2), (s1, e1)
+        if e1 == 1:
+            out.append([s1, s2, '*' if e2 == 1 else '/'])
+    elif its and len(its) == 1 and its[0][1] == 2:
+        out.append([its[0][0], its[0][0], '*'])
+    return out
 
 
 def _kind_of(v):
@@ -393,6 +551,16 @@ def perform(env: Env16, act):
     from quantity import Quantity, QuantityMeta
     from quantity.money import MoneyConverter
     a = act['a']
+    if a == 'operate':
+        try:
+            u, v = env.units[act['s1']], env.units[act['s2']]
+            amnt, unit = u * v if act['op'] == '*' else u / v
+            return 'ok', {'value': [
+                f"{amnt.numerator}/{amnt.denominator}",
+                None if unit is None else unit.symbol,
+                None if unit is None else unit.qty_cls.__name__]}
+        except Exception as e:      # noqa
+            return 'exc', type(e).__name__
     if a == 'conv_new':
         env.convs[act['name']] = MoneyConverter(env.units[act['base']])
         return 'ok', {}
@@ -449,15 +617,8 @@ def observe(env: Env16, symbols, typenames, pairs=(), final=True):
 
 
 def _observe(env: Env16, symbols, typenames, pairs=(), final=True):
-    # Observing u*v memoises it; without eviction every observation would
-    # pre-load the operation memo in both worlds alike and hide what an
-    # earlier (rejected) step left behind elsewhere.  Evicting the memo must
-    # never change a result, and both worlds do it identically.
-    try:
-        import quantity
-        quantity._UNIT_OP_CACHE.clear()
-    except Exception:       # noqa: renamed - observation goes on without
-        pass
+    # (the operation memo is deliberately left alone: a rejected step that
+    # empties or fills it has left a trace)
     from quantity import Quantity, Unit
     from quantity.money import Money, ExchangeRate
     obs = {}
@@ -581,7 +742,8 @@ def run_concrete(arg):
         res, info = perform(env, act)
         out.append([res if res == 'ok' else info,
                     observe(env, symbols, typenames, pairs,
-                            final=i == len(actions) - 1)])
+                            final=i == len(actions) - 1),
+                    info.get('value') if isinstance(info, dict) else None])
     return out
 
 
@@ -613,21 +775,7 @@ def judge(h):
     kept = [a for a, full in zip(plain, actions) if not deleted(full)]
     pairs = []
     for act in actions:
-        its = act.get('items') if act['a'] == 'term_unit' else None
-        if act['a'] == 'derive_unit' and len(act.get('units', [])) == 2:
-            its = [[act['units'][0], 1], [act['units'][1], 1]]
-            pairs.append([act['units'][0], act['units'][1], '/'])
-        if its and len(its) == 2 and abs(its[0][1]) == 1 and \
-                abs(its[1][1]) == 1:
-            (s1, e1), (s2, e2) = its
-            if e1 == -1:
-                (s1, e1), (s2, e2) = (s2, e2), (s1, e1)
-            if e1 == 1:
-                p = [s1, s2, '*' if e2 == 1 else '/']
-                if p not in pairs:
-                    pairs.append(p)
-        elif its and len(its) == 1 and its[0][1] == 2:
-            p = [its[0][0], its[0][0], '*']
+        for p in _pairs_of(act):
             if p not in pairs:
                 pairs.append(p)
     pairs = pairs[:12]
@@ -668,7 +816,18 @@ def judge(h):
         log.append([i, act['a'], oa[0]])
         if violations:
             continue
-        # outcome of the step itself (kept steps only)
+        # outcome of the step itself (kept steps only), and for an
+        # operation its result
+        if not deleted(act) and ob[0] == oa[0] and len(oa) > 2 and \
+                oa[2] != ob[2]:
+            facts = {'class': 'later_operation_result', 'action': act,
+                     'with_rejected_steps': oa[2], 'without': ob[2]}
+            fid = kf.match(PROP, 'twin', facts)
+            if fid:
+                bump(known, fid)
+            else:
+                violations.append(dict(facts, oracle='twin', step=i))
+                continue
         if not deleted(act) and ob[0] != oa[0]:
             facts = {'class': 'later_step_outcome', 'action': act,
                      'with_rejected_steps': oa[0], 'without': ob[0]}
